@@ -58,6 +58,8 @@ func init() {
 			)
 		}
 		ltsFixed(o, "first_frame_failure", []string{"BD", "SS", "CS"}, corpus)
+		// the HTTP client stream against a scripted transport: deliveries, receives and the end of the context interleaved
+		httpClientSchedules(o, r, n, "HLts")
 		id := 0
 		// 2. in-process unary: cancellation racing completion -- the complete result or the status, never a mixture
 		iters := 3000
